@@ -272,6 +272,8 @@ def run_sn(case, ctx):
             if st['type'] == 'conv':
                 if st['cin'] != c:
                     st['cin'] = c
+                if st.get('again'):          # a layer applied twice maps c -> c
+                    st['cout'] = c
                 c = st['cout']
             if st['type'] == 'bn':
                 st['c'] = c
